@@ -225,7 +225,7 @@ static void deliver(int id, size_t len, uint8_t fill, const uint8_t *pre, size_t
 
     if (all) {
         ifextra *x = extra[id];
-        ev = derive_session_event(buf, x->table, v->mac);
+        ev = derive_session_event(buf, len, x->table, v->mac);
     }
     parseFrame(buf, v);
     if (all) {
